@@ -47,6 +47,26 @@ func compileArtifacts(src string, dir string) (out map[string]string) {
 	} else {
 		out["format-src"] = "error: " + err.Error()
 	}
+	// the source without its file type declarations, formatted with the repair of
+	// includes and declarations switched on: the missing declarations are added
+	{
+		var keep []string
+		n := 0
+		for _, l := range strings.Split(src, "\n") {
+			if strings.HasPrefix(l, "filetype ") {
+				n++
+				continue
+			}
+			keep = append(keep, l)
+		}
+		if n > 0 {
+			if f, err := syntax.FormatSrcBytes([]byte(strings.Join(keep, "\n")), filepath.Join(dir, "pipeline.mro"), true, []string{dir}); err == nil {
+				out["format-with-declarations-restored"] = f
+			} else {
+				out["format-with-declarations-restored"] = "error: " + err.Error()
+			}
+		}
+	}
 	if ast.Call != nil {
 		if cg, err := ast.MakeCallGraph("ID.ps.", ast.Call); err != nil {
 			out["callgraph"] = "error: " + err.Error()
@@ -202,6 +222,7 @@ func c10Case(c *Ctx) {
 	gcfg.Structs = true
 	if c.Plan.Draw(2) == 0 {
 		gcfg.Files, gcfg.Retain, gcfg.RetainDup = true, true, true
+		gcfg.ManyFileTypes = c.Plan.Draw(2) == 0
 	}
 	prog := Generate(c.Plan, gcfg)
 	tsel := c.Plan.Draw(6)
